@@ -172,11 +172,21 @@ fn iter_is<'a>(mut it: impl ExactSizeIterator<Item = &'a str>, want: &[Txt], n: 
 }
 
 pub fn ulist_is(u: &UnicodeExtensionList, m: &UModel) -> bool {
+    ulist_is_opt(u, m, true)
+}
+/// without walking `keyword_keys()`: the number of keys (`len()`, O(1)) plus a successful `keyword(k)`
+/// lookup for each of the model's distinct keys pins the key set; the *order* in which the map yields
+/// its keys is checked where it is observable (C10 getters, C04 Display).  Saves the B-tree
+/// navigation code in the parser frames.
+pub fn ulist_is_lite(u: &UnicodeExtensionList, m: &UModel) -> bool {
+    ulist_is_opt(u, m, false)
+}
+fn ulist_is_opt(u: &UnicodeExtensionList, m: &UModel, walk: bool) -> bool {
     if !iter_is(u.attributes(), &m.attrs, m.nattrs) {
         return false;
     }
-    if m.kw.nkeys == 0 {
-        if u.keyword_keys().len() != 0 {
+    if m.kw.nkeys == 0 || !walk {
+        if u.keyword_keys().len() != m.kw.nkeys {
             return false;
         }
     } else if !iter_is(u.keyword_keys(), &m.kw.keys, m.kw.nkeys) {
@@ -200,6 +210,12 @@ pub fn ulist_is(u: &UnicodeExtensionList, m: &UModel) -> bool {
 }
 
 pub fn tlist_is(t: &TransformExtensionList, m: &TModel) -> bool {
+    tlist_is_opt(t, m, true)
+}
+pub fn tlist_is_lite(t: &TransformExtensionList, m: &TModel) -> bool {
+    tlist_is_opt(t, m, false)
+}
+fn tlist_is_opt(t: &TransformExtensionList, m: &TModel, walk: bool) -> bool {
     match (t.tlang(), &m.tlang) {
         (None, None) => {}
         (Some(l), Some(ml)) => {
@@ -209,8 +225,8 @@ pub fn tlist_is(t: &TransformExtensionList, m: &TModel) -> bool {
         }
         _ => return false,
     }
-    if m.fields.nkeys == 0 {
-        if t.tfield_keys().len() != 0 {
+    if m.fields.nkeys == 0 || !walk {
+        if t.tfield_keys().len() != m.fields.nkeys {
             return false;
         }
     } else if !iter_is(t.tfield_keys(), &m.fields.keys, m.fields.nkeys) {
